@@ -16,7 +16,7 @@ pub const FLOORS: &[&str] = &[
     "reset_after_eval_store", "reset_after_program_store", "reset_twice", "reset_then_full_run",
     "store_into_code", "store_into_stack_area", "memory_dirty_before_reset", "output:minimal", "output:decorated",
     "assembly_after_store_into_code", "resumed_under_debugger_after_reset", "reset_while_paused_on_breakpoint",
-    "resume_after_reset_compared_with_fresh_session", "reset_after_unfinished_step_over_call", "halt_planted_before_reset", "reset_after_eval_jump",
+    "resume_after_reset_compared_with_fresh_session", "reset_after_unfinished_step_over_call", "halt_planted_before_reset", "reset_after_eval_jump", "reset_while_parked_on_a_halt_planted_at_the_origin", "planted_halt_at_the_origin_reached_by_running",
 ];
 
 const FUEL: u64 = 15_000;
@@ -183,7 +183,22 @@ fn one_case(seed: u64, i: u64) -> CaseOut {
         lines.push("continue".into());
         tags.push("reset_while_paused_on_breakpoint");
     }
-    for _ in 0..(if paused_on_breakpoint_history { 0 } else { 1 + rng.below(9) }) {
+    // a HALT written over the first word while the PC stands on it, a try to run on (refused: parked on a
+    // HALT), and the reset right there: the PC does not move, the word under it does
+    let halt_at_origin_history = !paused_on_breakpoint_history && i % 9 == 4;
+    if halt_at_origin_history {
+        if rng.bool() && n_words >= 2 {
+            // ... reached by running: a JMP planted behind the origin takes the program back onto it
+            lines.push(format!("move r5 x{:04x}", orig));
+            lines.push(format!("move x{:04x} xC140", orig.wrapping_add(1)));
+            lines.push(format!("goto x{:04x}", orig.wrapping_add(1)));
+            tags.push("planted_halt_at_the_origin_reached_by_running");
+        }
+        lines.push(format!("move x{:04x} xF025", orig));
+        lines.push(rng.s(&["continue", "step", "si 2", "continue"]).to_string());
+        tags.push("reset_while_parked_on_a_halt_planted_at_the_origin");
+    }
+    for _ in 0..(if paused_on_breakpoint_history || halt_at_origin_history { 0 } else { 1 + rng.below(9) }) {
         match rng.below(12) {
             0 | 1 => {
                 lines.push(rng.s(&["step", "si 3", "si 10", "continue", "si 50", "so"]).to_string());
@@ -284,7 +299,7 @@ fn one_case(seed: u64, i: u64) -> CaseOut {
             lines.push("si 2".into());
         }
     }
-    let full_run = rng.chance(2, 3);
+    let full_run = rng.chance(2, 3) || halt_at_origin_history;
     let mut resume_cmd: Option<String> = None;
     if full_run {
         // resume in different ways before detaching: with the debugger still attached for a while
@@ -294,6 +309,7 @@ fn one_case(seed: u64, i: u64) -> CaseOut {
             1 => Some(format!("si {}", 1 + rng.below(6))),
             2 => Some("step".to_string()),
             3 if stack => Some("step out".to_string()),
+            _ if halt_at_origin_history => Some("continue".to_string()),
             _ => None,
         };
         if let Some(r) = &resume {
